@@ -4,6 +4,7 @@ package c09
 import (
 	"encoding/json"
 	"fmt"
+	"github.com/tigerwill90/fox"
 	"os"
 	"reflect"
 	"sort"
@@ -42,6 +43,9 @@ type Case struct {
 	// Detour are routes registered after Routes and deleted again before any request: hostnames that extend or truncate a
 	// registered hostname. The registered set is Routes either way.
 	Detour []rt.RouteSpec `json:"detour,omitempty"`
+	// ViaTxn: every request is also looked up through a write transaction, not yet committed, in which the hostname routes
+	// were registered on a router that so far held the path-only routes: the transaction reads its own writes.
+	ViaTxn bool `json:"via_txn,omitempty"`
 }
 
 func hasBoth(pats []string) bool {
@@ -92,6 +96,29 @@ func checkCase(c *Case, count bool) error {
 	if count && len(c.Detour) > 0 {
 		stats.Class("detour:neighbour-hostnames-registered-and-deleted")
 	}
+	var wtx *fox.Txn
+	if c.ViaTxn {
+		var pathOnly []rt.RouteSpec
+		for _, s := range r.Routes {
+			if strings.HasPrefix(s.Pattern, "/") {
+				pathOnly = append(pathOnly, s)
+			}
+		}
+		if r2, err := rt.New(c.G, pathOnly); err == nil && len(r2.Routes) == len(pathOnly) {
+			wtx = r2.F.Txn(true)
+			defer wtx.Abort()
+			for _, s := range r.Routes {
+				if !strings.HasPrefix(s.Pattern, "/") {
+					if _, err := wtx.Handle(s.Method, s.Pattern, r2.Sink.Handler(s.Pattern), rt.RouteOptions(s.TS)...); err != nil {
+						return fmt.Errorf("routes %v: registering the hostname route %s %s inside a write transaction on a router holding the path-only routes: %v", r.Routes, s.Method, s.Pattern, err)
+					}
+				}
+			}
+			if count {
+				stats.Class("also-observed-through-an-uncommitted-write-transaction")
+			}
+		}
+	}
 	for _, q := range c.Reqs {
 		pats := r.Patterns(q.Method)
 		if rt.ExcludedE(q.Path, pats) {
@@ -132,6 +159,14 @@ func checkCase(c *Case, count bool) error {
 		}
 		if rv := rt.DoReverse(r.F, q); rv.Pattern != wantPat || rv.Tsr != want.Tsr {
 			return fmt.Errorf("%sReverse returned %v", desc, rv)
+		}
+		if wtx != nil {
+			if o := rt.DoLookup(wtx, q); o.Pattern != wantPat || o.Tsr != want.Tsr {
+				return fmt.Errorf("%sTxn.Lookup of the write transaction that registered the hostname routes returned %v", desc, o)
+			}
+			if o := rt.DoReverse(wtx, q); o.Pattern != wantPat || o.Tsr != want.Tsr {
+				return fmt.Errorf("%sTxn.Reverse of the write transaction that registered the hostname routes returned %v", desc, o)
+			}
 		}
 		sv := r.ServeReq(q)
 		if len(sv.Hits) != 1 {
@@ -222,6 +257,7 @@ func genCase(t *rapid.T) *Case {
 		m := gen.Pick(t, []string{"GET", "GET", "GET", "POST"}, "method")
 		c.Routes = append(c.Routes, rt.RouteSpec{Method: m, Pattern: p})
 	}
+	c.ViaTxn = gen.Chance(t, 1, 3, "viatxn")
 	if gen.Chance(t, 1, 3, "detour") {
 		for i, nd := 0, gen.IntR(t, 1, 2, "ndetour"); i < nd; i++ {
 			src := gen.Pick(t, c.Routes, "dsrc")
